@@ -44,7 +44,6 @@ COST = {(32, "div"): 7, (64, "div"): 27, (32, "sqrt"): 7, (64, "sqrt"): 21, (32,
         (32, "divmul"): 9, (64, "add"): 4, (64, "sub"): 5, (64, "muladd"): 6, (64, "mulsub"): 7, (64, "mix"): 7}
 MC_FORMATS = {"quick": [(3, 2), (4, 2)], "thorough": [(3, 2), (4, 2), (4, 3), (2, 5), (3, 4)]}
 TLC_PAR = 6          # concurrent single-worker TLC runs
-MAX_REJECTS = 60     # rejected events followed up per validation run
 
 
 # ------------------------------------------------------------------------------------------- bit patterns
@@ -515,28 +514,27 @@ def validate_all(pid, tier, uniq, ev, tag):
         path = os.path.join(d, "trace_%s_%d.ndjson" % (tag, k))
         cls, rej, runs = {}, {}, []
         off = 0
-        for _ in range(MAX_REJECTS + 1):
+        # run 1 stops at the first rejected event; run 2 (CONTINUE=1) goes through the rest and lists every
+        # rejected event
+        for attempt in (1, 2):
             rest = idx[off:]
             if not rest:
                 break
             vlib.write_ndjson(path, [uniq[i] for i in rest])
-            r = vlib.validate_trace("TraceIeee", cfg, path, timeout=3000, heap="3g")
+            r = vlib.validate_trace("TraceIeee", cfg, path, timeout=3000, heap="3g", env={"CONTINUE": "1"} if attempt == 2 else None)
             runs.append(r)
             for (t, raw) in r.prints:
                 if t == "CLASS":
                     c = json.loads(vlib._unescape_tla(raw))
                     cls[rest[c["i"] - 1]] = c
-            if r.ok:
-                off = len(idx)
-                break
-            if r.postcondition_failed and r.replay:
-                un = r.replay[0]
+            for un in r.replay:
                 rej[rest[un["line"] - 1]] = un["spec"]
-                off += un["line"]
+            if r.ok:
+                break
+            if attempt == 1 and r.postcondition_failed and r.replay:
+                off += r.replay[0]["line"]
                 continue
             raise vlib.ToolError("trace validation failed to run: %s\n%s" % (r.error, r.stdout[-2000:]))
-        else:
-            raise vlib.ToolError("more than %d rejected events in one validation run (%s)" % (MAX_REJECTS, path))
         vlib.write_ndjson(path, [uniq[i] for i in idx])
         for r in runs:
             r.prints = []
